@@ -70,8 +70,8 @@ def gen_map(n, w):
     w("// newMapAd%d adapts a generic.Map%d.\n" % (n, n))
     w("func newMapAd%d%s(w *ecs.World, rel ...generic.Comp) *mapAd {\n" % (n, decl(n)))
     w("\tad := &mapAd{n: %d}\n" % n)
-    w("\tad.ids = []ecs.ID{%s}\n" % ", ".join("ecs.ComponentID[A%d](w)" % i for i in range(n)))
     w("\tm := generic.NewMap%d%s(w, rel...)\n" % (n, T))
+    w("\tad.ids = []ecs.ID{%s}\n" % ", ".join("ecs.ComponentID[A%d](w)" % i for i in range(n)))
     w("\tad.New = func(t ...ecs.Entity) ecs.Entity { return m.New(t...) }\n")
     args = ", ".join("mk[A%d](v[%d])" % (i, i) for i in range(n))
     w("\tad.NewWith = func(v []int64, t ...ecs.Entity) ecs.Entity { return m.NewWith(%s, t...) }\n" % args)
